@@ -4,8 +4,8 @@
 # usage: tools/confirm_seeded.sh seeded/C18-1 [seeded/...]; results appended to <dir>/confirm.json
 W=/tmp/confirm-wt
 export CARGO_TARGET_DIR=/tmp/confirm-target CARGO_NET_OFFLINE=true
-for d in "$@"; do
-  d=$(readlink -f $d)
+ARGS=(); for a in "$@"; do ARGS+=("$(readlink -f "$a")"); done
+for d in "${ARGS[@]}"; do
   git -C /repo worktree remove --force $W 2>/dev/null; rm -rf $W
   git -C /repo worktree add -q --detach $W HEAD || exit 1
   cp /repo/Cargo.lock $W/
